@@ -44,17 +44,21 @@ structure World where
   io : Nat → List IoOp
   /-- when creating the file fails: had the file of that name already been removed (`"!path"` = clobber)? -/
   clobbered : Bool
+  /-- when the clean-up call (`fits_delete_file`, `remove`) reports an error: is the file gone nevertheless?
+      (`fits_delete_file` on a file without any HDU reports an error and has deleted the file.) -/
+  removedAnyway : Bool
 
 /-- The file name after one more call.  `disk = none`: no file of that name.  `j` = index of the call.
     * `fits_create_file("!path")`: on success the old file is gone and a new, empty one exists (plus whatever the call
       wrote); on failure the old file is still there or already removed;
-    * `fits_delete_file` / `remove`: on success no file; on failure the file stays as it is;
+    * `fits_delete_file` / `remove`: on success no file; when they report an error the file stays as it is or is gone
+      all the same (`removedAnyway`);
     * every other call: its operations are applied to the file, whether the call reports success or not. -/
 def stepDisk (w : World) (prev : Option Bytes) (disk : Option Bytes) (j : Nat) : Step × Bool → Option Bytes
   | (.init, true) => some ((w.io j).foldl IoOp.apply [])
   | (.init, false) => if w.clobbered then none else prev
-  | (.delt, ok) => if ok then none else disk
-  | (.remove, ok) => if ok then none else disk
+  | (.delt, ok) => if ok || w.removedAnyway then none else disk
+  | (.remove, ok) => if ok || w.removedAnyway then none else disk
   | (_, _) => disk.map fun f => (w.io j).foldl IoOp.apply f
 
 /-- the file name after the calls of a trace, starting with call number `j` -/
